@@ -89,7 +89,7 @@ def F (env : Env) (R : Rel) (a b : Ty) : Prop :=
   ∨ (∃ x d, a = .var x ∧ recFindFull env x = some d ∧ R d b)
   ∨ (∃ x d, b = .var x ∧ isName a = false ∧ recFindFull env x = some d ∧ R a d)
   ∨ (∃ args t, a = .cls args t ∧ isName b = false ∧ R t b)
-  ∨ (∃ args t, b = .cls args t ∧ isName a = false ∧ R a t)
+  ∨ (∃ args t, b = .cls args t ∧ isName a = false ∧ (∀ args' t', a ≠ .cls args' t') ∧ R a t)
 
 /-- the subtyping relation: greatest fixed point of `F` -/
 def Sub (env : Env) (a b : Ty) : Prop := ∃ R : Rel, (∀ a b, R a b → F env R a b) ∧ R a b
@@ -149,16 +149,16 @@ def subAlg (env : Env) : Nat → Gamma → Ty → Ty → Res
         else
           let (ok2, g'') := probe (subAlg env n g' (.opt a') b') g'
           -- `&& !matches!(env.trace_type(ty2)?, …)`: the `?` only runs after a successful probe
-          if ok2 ∧ (env.trace n b').isNone then .no else .yes g''
+          if ok2 ∧ (traceFull env b').isNone then .no else .yes g''
       | _, .opt b' =>
         let (ok, g') := probe (subAlg env n g a b') g
-        if ok ∧ (env.trace n b').isNone then .no else .yes g'
+        if ok ∧ (traceFull env b').isNone then .no else .yes g'
       | .record fs1, .record fs2 =>
         allM (fun g p =>
           match lookupF fs1 p.1.getId with
           | some t1 => subAlg env n g t1 p.2
           | none =>
-            match env.trace n p.2 with
+            match traceFull env p.2 with
             | none => .no
             | some t' => if isOptLikeTy t' then .yes g else .no) g fs2.toList
       | .variant fs1, .variant fs2 =>
